@@ -15,7 +15,7 @@ def ctlEvt (cfg : Cfg) (k : Ctl) : String := if ctlGo cfg k then "set" else "cle
 /-- name of the pending operation, in the vocabulary of harness/sched.py -/
 def mainLabel (cfg : Cfg) : MPc → Option String
   | .begin => some "begin"
-  | .pAcq _ => some "mlock.acq"
+  | .pAcq _ _ => some "mlock.acq"
   | .pRaiseRel => some "mlock.rel"
   | .pGoSet i => some s!"go{i}.set"
   | .pOpen _ => some "pa.open"
@@ -77,10 +77,15 @@ def evJson : Ev → Json
 def sstStr : SSt → String
   | .unopened => "unopened" | .active => "active" | .stopped => "stopped" | .closed => "closed"
 
-def parseCmd (j : Json) : Except String Cmd := do
+/-- `["play", samples]` plays with the request's default chunk size, `["play", samples, cs]` with its own -/
+def parseCmd (dcs : Nat) (j : Json) : Except String Cmd := do
   let a ← getArr j
   match a with
-  | [Json.str "play", xs] => pure (.play (← getList getInt xs))
+  | [Json.str "play", xs] => pure (.play (← getList getInt xs) dcs)
+  | [Json.str "play", xs, c] =>
+    let c ← getNat c
+    if c = 0 then throw "chunk size must be positive"
+    pure (.play (← getList getInt xs) c)
   | [Json.str "pause", i] => pure (.ctl .pause (← getNat i))
   | [Json.str "resume", i] => pure (.ctl .resume (← getNat i))
   | [Json.str "stop", i] => pure (.ctl .stop (← getNat i))
@@ -104,9 +109,9 @@ def handle (entry : String) (j : Json) : Except String Json := do
     let fixed ← getBool (← field j "fixed")
     let cs ← getNat (← field j "cs")
     if cs = 0 then throw "cs must be positive"
-    let script ← getList parseCmd (← field j "script")
+    let script ← getList (parseCmd cs) (← field j "script")
     let sched ← getList getNat (← field j "schedule")
-    let cfg : Cfg := { wait := wait, fixed := fixed, cs := cs }
+    let cfg : Cfg := { wait := wait, fixed := fixed }
     let (s, steps, bad) := replay cfg (init script) sched []
     let outcome :=
       match bad with
@@ -116,7 +121,7 @@ def handle (entry : String) (j : Json) : Except String Json := do
       ("written", arr (arr intToJson) p.written), ("state", Json.str (sstStr p.sst)),
       ("alive", Json.bool (p.pc != .done && p.pc != .new)), ("halting", Json.bool p.halting),
       ("go", Json.bool p.go)]
-    let audios := script.filterMap fun c => match c with | .play a => some a | _ => none
+    let audios := script.filterMap fun c => match c with | .play a c => some (a, c) | _ => none
     pure <| Json.mkObj [
       ("model", Json.mkObj [
         ("steps", arr Json.str steps), ("final", Json.str (pendStr cfg s)),
@@ -125,7 +130,7 @@ def handle (entry : String) (j : Json) : Except String Json := do
         ("threads", nats s.threads), ("perr", Json.bool s.perr),
         ("closedAfter", Json.bool (closedAfter s)), ("noneAlive", Json.bool (noneAlive s))]),
       ("spec", Json.mkObj [
-        ("chunks", arr (fun a => arr (arr intToJson) (chunksSpec cs a)) audios)])]
+        ("chunks", arr (fun (a : List Int × Nat) => arr (arr intToJson) (chunksSpec a.2 a.1)) audios)])]
   | _ => throw s!"C17: unknown entry {entry}"
 
 end ALV.Driver.C17
